@@ -845,7 +845,7 @@ func setStrs(s map[string]bool) []string {
 // isWrite reports whether the op is a mutating call.
 func isWrite(k string) bool {
 	switch k {
-	case "put", "putts", "del", "rpush", "lpush", "lpop", "rpop", "lrem", "lset", "ltrim",
+	case "put", "putts", "putbig", "del", "rpush", "lpush", "lpop", "rpop", "lrem", "lset", "ltrim",
 		"sadd", "srem", "spop", "smove1", "smove2",
 		"zadd", "zrem", "zremrangebyrank", "zpopmax", "zpopmin":
 		return true
